@@ -41,6 +41,7 @@ def gen_cases(ctx):
         rng = ctx.rng("drift", i)
         mv = linkcommon.gen_movie(rng, thorough=ctx.thorough, plant_history=True)
         mv["stream"] = "drift"
+        mv["scale_pow"] = 0
         mv["entry"] = "link_iter"
         mv["strategy"] = rng.choice(["recursive", "nonrecursive", "numba", None])
         mv["tstep"] = rng.choice([1, 1, 2])
